@@ -10,7 +10,7 @@ for d in sorted(glob.glob("/verif/seeded/*/")):
     res = []
     for p, c in ch.items():
         viol = [l for l in c["lines"] if l.startswith("VIOLATION")]
-        kind = "MISSED" if c["exit"] == 0 else ("infra" if c["exit"] == 2 else ("caught-nofail" if viol and "no-failing-input-found" in viol[0] else "caught"))
+        kind = "MISSED" if c["exit"] == 0 else ("infra" if c["exit"] == 2 else "timeout" if c["exit"] == 124 else ("caught-nofail" if viol and "no-failing-input-found" in viol[0] else "caught"))
         res.append("%s:%s(%ss)" % (p, kind, c["wall_s"]))
     for extra in m.get("later_runs", []):
         res.append("later %s:%s" % (extra["check"], extra["result"]))
